@@ -225,6 +225,20 @@ static void build_ops(void)
 			e.typed = "a\x01";
 			add(e, "%ca\x16\x01" ESC, *c);
 		}
+		/* erasing multi-byte characters of every length (C16: the line stays valid UTF-8) */
+		memset(&e, 0, sizeof(e));
+		e.kind = E_INS;
+		for (c = "iA"; *c; c++) {
+			e.ins = *c;
+			e.typed = "a";
+			add(e, "%ca\xc3\xa9\x08" ESC, *c);
+			add(e, "%ca\xe4\xb8\x80\x08" ESC, *c);
+			add(e, "%ca\xf0\x90\x8d\x88\x08" ESC, *c);
+			e.typed = "\xf0\x90\x8d\x88";
+			add(e, "%c\xf0\x90\x8d\x88\xf0\x90\x8d\x88\x08" ESC, *c);
+			e.typed = "x ";
+			add(e, "%cx \xc3\xa9\xf0\x90\x8d\x88\x17" ESC, *c);
+		}
 		/* multi-line typed text (on lines without indentation this is independent of autoindent) */
 		memset(&e, 0, sizeof(e));
 		e.kind = E_INS; e.ins = 'i'; e.typed = "1\n2"; add(e, "i1\n2" ESC);
